@@ -44,6 +44,11 @@ VT_IFACE = """
       real(C_DOUBLE), intent(IN) :: a(*)
       integer(C_LONG), value :: n
     end subroutine
+    subroutine vt_arr_int(a, n) bind(C, name="vt_arr_int")
+      import :: C_INT, C_LONG
+      integer(C_INT), intent(IN) :: a(*)
+      integer(C_LONG), value :: n
+    end subroutine
     subroutine vt_obj(p) bind(C, name="vt_obj")
       import :: C_PTR
       type(C_PTR), value :: p
